@@ -6,7 +6,7 @@
 //@rewrite-text !u.as_slice().eq(c3) ==> shim_ne_slices(u.as_slice(), c3)
 //@rewrite-text ((klen as f64) / 32.0).ceil() as u32 ==> shim_ceil_div32(klen)
 //@assume shim_all_zero / shim_ne_slices / shim_ceil_div32 / shim_to_be_u32: all-zero test, slice inequality, ceil(klen/32) via f64, big-endian u32 (external_body shims whose body is the replaced std expression)
-//@assume Fp12 arithmetic (pow, fp_mul, to_bytes_be) and the pairing sm9_u256_pairing are seen ONLY through the hand-written contracts of the `assumed` sections (bodies in gm-sm9/src/points.rs and fields/fp12.rs are not verified by Verus against them; their formulas are covered by Lean obligations; bilinearity/C12 is not claimed). G1 and G2 point arithmetic are proved in units sm9_g1 / sm9_g2 and imported through their contracts
+//@assume the pairing sm9_u256_pairing is seen ONLY through the hand-written contract of the `assumed` section (its body and the line functions in gm-sm9/src/points.rs are not verified by Verus against it; e9 is an abstract symbol with an assumed bilinearity axiom; C12 is not claimed). G1, G2 and Fp12 arithmetic (pow, fp_mul, to_bytes_be, eq) are proved in units sm9_g1 / sm9_g2 / sm9_fp12 and imported through their contracts; GT is the Fp12 arithmetic (gt_mul := f12_mul)
 //@assume rejection loops (sign, encrypt, exch_step_1b) terminate with probability 1 (exec_allows_no_decreases_clause)
 //@include-spec sm2_math
 //@include-spec sm9_math
@@ -15,6 +15,9 @@
 //@include-spec sm9_rand
 //@include-spec sm9_g1
 //@include-spec sm9_g2
+//@include-spec sm9_fp2
+//@include-spec sm9_fp4
+//@include-spec sm9_fp12
 //@section spec
 use core::fmt::Debug;
 use vstd::arithmetic::div_mod::*;
@@ -23,16 +26,21 @@ fn shim_all_zero(x: &Vec<u8>) -> (r: bool) ensures r == (forall|i: int| 0 <= i <
 #[verifier::external_body]
 fn shim_ne_slices(a: &[u8], b: &[u8]) -> (r: bool) ensures r == !(a@ =~= b@) { !a.eq(b) }
 #[verifier::external]
-impl PartialEq for Fp12 { fn eq(&self, other: &Self) -> bool { unimplemented!() } }
-#[verifier::external]
-impl Eq for Fp12 {}
-#[verifier::external]
 impl core::fmt::Debug for Sm9Error { fn fmt(&self, f: &mut core::fmt::Formatter<'_>) -> core::fmt::Result { Ok(()) } }
 // representation predicates / abstractions (G1 concrete, G2 / GT abstract)
 // ok12 additionally fixes the number of coefficients of the abstract view (needed for |gt_bytes| = 384)
-pub uninterp spec fn ok12_repr(f: Fp12) -> bool;
-pub uninterp spec fn abs12(f: Fp12) -> Gt;
-spec fn ok12(f: Fp12) -> bool { ok12_repr(f) && abs12(f).c.len() == 12 }
+// ---------------- GT: the Fp12 arithmetic of unit sm9_fp12 (block moved here from sm9_math: it needs f12_one / f12_mul)
+pub open spec fn gt_one() -> Gt { Gt { c: f12_one() } }
+pub open spec fn gt_mul(a: Gt, b: Gt) -> Gt { Gt { c: f12_mul(a.c, b.c) } }
+pub open spec fn gt_pow(g: Gt, k: int) -> Gt decreases k { if k <= 0 { gt_one() } else { gt_mul(gt_pow(g, k - 1), g) } }
+// the R-ate pairing of GM/T 0044.1 as an abstract symbol: e9(Q in G2, P in G1)
+pub uninterp spec fn e9(q: Pt2, p: Pt1) -> Gt;
+// bilinearity as used by the scheme-level lemmas (assumed; C12 is not claimed)
+#[verifier::external_body]
+pub proof fn ax9_bilinear(a: int, b: int, q: Pt2, p: Pt1) requires a >= 0, b >= 0, on_curve2(q), on_curve1(p)
+    ensures e9(g2_smul(a, q), g1_smul(b, p)) == gt_pow(e9(q, p), a * b) { }
+spec fn abs12(f: Fp12) -> Gt { Gt { c: f.val() } }
+spec fn ok12(f: Fp12) -> bool { f.ok() }
 // ---------------- GM/T 0044: H1 / H2 (hash to [1, N-1]), MAC, KDF ----------------
 pub open spec fn s_ha(prefix: u8, z: Seq<u8>) -> Seq<u8> {
     (sm3_spec(seq![prefix] + z + seq![0u8, 0u8, 0u8, 1u8]) + sm3_spec(seq![prefix] + z + seq![0u8, 0u8, 0u8, 2u8])).subrange(0, 40)
@@ -132,12 +140,18 @@ struct Fp2 {
     c0: Fp,
     c1: Fp,
 }
+impl Eq for Fp2 {}
+//@stub sm9_fp2 Fp2::eq
+//@stub-trait sm9_fp2 FieldElement
 //@section code gm-sm9/src/fields/fp4.rs
 #[derive(Debug, Copy, Clone)]
 struct Fp4 {
     c0: Fp2,
     c1: Fp2,
 }
+impl Eq for Fp4 {}
+//@stub sm9_fp4 Fp4::eq
+//@stub-trait sm9_fp4 FieldElement
 //@section code gm-sm9/src/fields/fp12.rs
 #[derive(Debug, Copy, Clone)]
 struct Fp12 {
@@ -145,6 +159,10 @@ struct Fp12 {
     c1: Fp4,
     c2: Fp4,
 }
+impl Eq for Fp12 {}
+//@stub sm9_fp12 Fp12::eq
+//@stub-trait sm9_fp12 FieldElement
+//@stub sm9_fp12 Fp12::pow
 //@section code gm-sm9/src/points.rs
 #[derive(Copy, Debug, Clone)]
 struct Point {
@@ -215,41 +233,38 @@ fn sm9_u256_pairing(q: &TwistPoint, p: &Point) -> (r: Fp12)
     requires valid2(*q), valid1(*p)
     ensures ok12(r), abs12(r) == e9(abs2(*q), abs1(*p))
 { unimplemented!() }
-//@section assumed gm-sm9/src/fields/fp12.rs
-impl Fp12 {
-    fn pow(&self, e: &U256) -> (r: Self)
-        requires ok12(*self), val4(e@) <= N9() - 1
-        ensures ok12(r), abs12(r) == gt_pow(abs12(*self), val4(e@))
-    { unimplemented!() }
-}
-//@section spec
-// the FieldElement impl of Fp12 as seen by this unit (contract of the trait instantiated with the abstract GT view)
-impl FieldElement for Fp12 {
-    spec fn ok(&self) -> bool { ok12(*self) }
-    spec fn val(&self) -> Seq<int> { abs12(*self).c }
-    spec fn s_zero() -> Seq<int> { Seq::empty() }
-    spec fn s_one() -> Seq<int> { gt_one().c }
-    spec fn s_add(a: Seq<int>, b: Seq<int>) -> Seq<int> { Seq::empty() }
-    spec fn s_sub(a: Seq<int>, b: Seq<int>) -> Seq<int> { Seq::empty() }
-    spec fn s_mul(a: Seq<int>, b: Seq<int>) -> Seq<int> { gt_mul(Gt { c: a }, Gt { c: b }).c }
-    spec fn s_neg(a: Seq<int>) -> Seq<int> { Seq::empty() }
-    spec fn s_inv(a: Seq<int>) -> Seq<int> { Seq::empty() }
-    spec fn s_bytes(a: Seq<int>) -> Seq<u8> { gt_bytes(Gt { c: a }) }
-    #[verifier::external_body] fn zero() -> Self { unimplemented!() }
-    #[verifier::external_body] fn one() -> Self { unimplemented!() }
-    #[verifier::external_body] fn is_zero(&self) -> bool { unimplemented!() }
-    #[verifier::external_body] fn fp_sqr(&self) -> Self { unimplemented!() }
-    #[verifier::external_body] fn fp_double(&self) -> Self { unimplemented!() }
-    #[verifier::external_body] fn fp_triple(&self) -> Self { unimplemented!() }
-    #[verifier::external_body] fn fp_add(&self, rhs: &Self) -> Self { unimplemented!() }
-    #[verifier::external_body] fn fp_sub(&self, rhs: &Self) -> Self { unimplemented!() }
-    #[verifier::external_body] fn fp_mul(&self, rhs: &Self) -> Self { unimplemented!() }
-    #[verifier::external_body] fn fp_neg(&self) -> Self { unimplemented!() }
-    #[verifier::external_body] fn fp_div2(&self) -> Self { unimplemented!() }
-    #[verifier::external_body] fn fp_inv(&self) -> Self { unimplemented!() }
-    #[verifier::external_body] fn to_bytes_be(&self) -> Vec<u8> { unimplemented!() }
-}
 //@section spec local
+use vstd::std_specs::cmp::PartialEqSpec;
+impl vstd::std_specs::cmp::PartialEqSpecImpl for Fp2 {
+    open spec fn obeys_eq_spec() -> bool { true }
+    closed spec fn eq_spec(&self, other: &Self) -> bool { self.c0@ == other.c0@ && self.c1@ == other.c1@ }
+}
+spec fn k9_eq4(a: Fp4, b: Fp4) -> bool { a.c0.c0@ == b.c0.c0@ && a.c0.c1@ == b.c0.c1@ && a.c1.c0@ == b.c1.c0@ && a.c1.c1@ == b.c1.c1@ }
+impl vstd::std_specs::cmp::PartialEqSpecImpl for Fp4 {
+    open spec fn obeys_eq_spec() -> bool { true }
+    closed spec fn eq_spec(&self, other: &Self) -> bool { k9_eq4(*self, *other) }
+}
+impl vstd::std_specs::cmp::PartialEqSpecImpl for Fp12 {
+    open spec fn obeys_eq_spec() -> bool { true }
+    closed spec fn eq_spec(&self, other: &Self) -> bool { k9_eq4(self.c0, other.c0) && k9_eq4(self.c1, other.c1) && k9_eq4(self.c2, other.c2) }
+}
+// ---------------- the link between the Fp12 arithmetic (unit sm9_fp12) and the GT view
+proof fn k9_val12(f: Fp12) ensures f.val().len() == 12
+{
+    f4_split(f.c0.c0.val(), f.c0.c1.val()); f4_split(f.c1.c0.val(), f.c1.c1.val()); f4_split(f.c2.c0.val(), f.c2.c1.val());
+    f12_split(f.c0.val(), f.c1.val(), f.c2.val());
+}
+proof fn k9_pow12(a: Seq<int>, k: int) ensures gt_pow(Gt { c: a }, k) == (Gt { c: f12_pow(a, k) }) decreases k
+{ if k > 0 { k9_pow12(a, k - 1); } }
+spec fn k9_link12_p() -> bool {
+    &&& (forall|f: Fp12| #![trigger f.val()] f.val().len() == 12 && f12_bytes(f.val()) == gt_bytes(Gt { c: f.val() }))
+    &&& (forall|a: Seq<int>, k: int| #![trigger f12_pow(a, k)] gt_pow(Gt { c: a }, k) == (Gt { c: f12_pow(a, k) }))
+}
+proof fn k9_link12() ensures k9_link12_p()
+{
+    assert forall|f: Fp12| #![trigger f.val()] f.val().len() == 12 && f12_bytes(f.val()) == gt_bytes(Gt { c: f.val() }) by { k9_val12(f); f12_lemma_bytes_gt(f.val()); }
+    assert forall|a: Seq<int>, k: int| #![trigger f12_pow(a, k)] gt_pow(Gt { c: a }, k) == (Gt { c: f12_pow(a, k) }) by { k9_pow12(a, k); }
+}
 proof fn k9_h_range(prefix: u8, z: Seq<u8>) ensures 1 <= s_h(prefix, z) < N9()
 {
     lemma_params9();
@@ -369,7 +384,7 @@ impl Sm9EncKey {
         k_append.extend_from_slice(idb);
         let ghost zz = data@.subrange(1, 65) + gt_bytes(e9(abs2(self.de), abs1(c1))) + idb@;
         proof {
-            k9_gt_wrap(abs12(w)); k9_gt_bytes_len(abs12(w));
+            k9_link12(); k9_gt_wrap(abs12(w)); k9_gt_bytes_len(abs12(w));
             assert(w_bytes@ == gt_bytes(abs12(w)));
             assert(c1_bytes@.subrange(1, 65) =~= data@.subrange(1, 65));
             assert(k_append@ =~= zz);
@@ -475,7 +490,7 @@ impl Sm9EncMasterKey {
             k_append.extend_from_slice(gbuf);
             k_append.extend_from_slice(idb);
             proof {
-                k9_gt_wrap(abs12(g)); k9_gt_bytes_len(abs12(g)); k9_xy_len(abs1(c1));
+                k9_link12(); k9_gt_wrap(abs12(g)); k9_gt_bytes_len(abs12(g)); k9_xy_len(abs1(c1));
                 assert(gbuf@ == gt_bytes(abs12(g)));
                 assert(cbuf@.subrange(1, cbuf@.len() as int) =~= xy1_bytes(abs1(c1)));
                 assert(k_append@ =~= xy1_bytes(abs1(c1)) + gt_bytes(gt_pow(e9(G2P(), abs1(self.ppube)), val4(r0))) + idb@);
@@ -751,7 +766,7 @@ impl Sm9SignKey {
             let wbuf = wbuf.as_slice();
 
             
-            proof { k9_gt_wrap(abs12(w)); k9_gt_bytes_len(abs12(w)); assert(wbuf@ == gt_bytes(abs12(w))); }
+            proof { k9_link12(); k9_gt_wrap(abs12(w)); k9_gt_bytes_len(abs12(w)); assert(wbuf@ == gt_bytes(abs12(w))); }
             h = sm9_u256_hash2(data, wbuf);
 
             
@@ -841,7 +856,7 @@ impl Sm9SignMasterKey {
         let wbuf = w.to_bytes_be();
         let wbuf = wbuf.as_slice();
         proof {
-            k9_gt_wrap(abs12(u)); k9_gt_wrap(abs12(t)); k9_gt_wrap(abs12(w));
+            k9_link12(); k9_gt_wrap(abs12(u)); k9_gt_wrap(abs12(t)); k9_gt_wrap(abs12(w));
             k9_gt_bytes_len(abs12(w));
             assert(abs12(w) == gt_mul(abs12(u), abs12(t)));
             assert(wbuf@ == gt_bytes(abs12(w)));
@@ -941,7 +956,7 @@ fn exch_step_1b(
         pre_append.extend_from_slice(&g3);
 
         proof {
-            k9_gt_wrap(a1); k9_gt_wrap(a2); k9_gt_wrap(a3); k9_gt_bytes_len(a1); k9_gt_bytes_len(a2); k9_gt_bytes_len(a3);
+            k9_link12(); k9_gt_wrap(a1); k9_gt_wrap(a2); k9_gt_wrap(a3); k9_gt_bytes_len(a1); k9_gt_bytes_len(a2); k9_gt_bytes_len(a3);
             k9_xy_len(abs1(*ra)); k9_xy_len(abs1(r));
             assert(g1@ == gt_bytes(a1) && g2@ == gt_bytes(a2) && g3@ == gt_bytes(a3));
             assert(ta@.subrange(1, ta@.len() as int) =~= xy1_bytes(abs1(*ra)));
@@ -1026,7 +1041,7 @@ fn exch_step_2a(
         pre_append.extend_from_slice(&g3);
 
         proof {
-            k9_gt_wrap(a1); k9_gt_wrap(a2); k9_gt_wrap(a3); k9_gt_bytes_len(a1); k9_gt_bytes_len(a2); k9_gt_bytes_len(a3);
+            k9_link12(); k9_gt_wrap(a1); k9_gt_wrap(a2); k9_gt_wrap(a3); k9_gt_bytes_len(a1); k9_gt_bytes_len(a2); k9_gt_bytes_len(a3);
             k9_xy_len(abs1(*ra)); k9_xy_len(abs1(*rb));
             assert(g1@ == gt_bytes(a1) && g2@ == gt_bytes(a2) && g3@ == gt_bytes(a3));
             assert(ta@.subrange(1, ta@.len() as int) =~= xy1_bytes(abs1(*ra)));
